@@ -607,9 +607,13 @@ fn run_inst<T: Sc>(line: &Line, idx: usize, pools: &Pools, opts: &Opts, rep: &mu
     // having full column rank (C03: "whenever the weighted basis matrix has full column rank").
     if T::NAME == "f64" && inst.m >= 2 && idx % 3 == 0 {
         let jcol = inst.m - 1;
-        // alternately a tiny and a huge scale
-        let sexp: i32 = if idx % 2 == 0 { -30 } else { 24 };
+        // alternately a tiny and a huge scale; on every fourth of these instances ALL functions are scaled
+        // by 2^+-600 instead (squares of the entries are not representable; with the tiny scale the caller
+        // has to pass a threshold of zero, the default one would count every singular value as zero)
+        let all = (idx / 3) % 4 == 3;
+        let sexp: i32 = if all { if idx % 2 == 0 { -600 } else { 600 } } else if idx % 2 == 0 { -30 } else { 24 };
         let sc = T::of64((2.0f64).powi(sexp));
+        let twin_eps: Option<T> = if all && sexp < 0 { Some(T::zero()) } else { None };
         let scaled = Arc::new(Table {
             n: inst.n,
             m: inst.m,
@@ -619,7 +623,7 @@ fn run_inst<T: Sc>(line: &Line, idx: usize, pools: &Pools, opts: &Opts, rep: &mu
                 .entries
                 .iter()
                 .map(|e| {
-                    let f = |mtx: &DMatrix<T>| DMatrix::from_fn(mtx.nrows(), mtx.ncols(), |i, j| if j == jcol { mtx[(i, j)] * sc } else { mtx[(i, j)] });
+                    let f = |mtx: &DMatrix<T>| DMatrix::from_fn(mtx.nrows(), mtx.ncols(), |i, j| if all || j == jcol { mtx[(i, j)] * sc } else { mtx[(i, j)] });
                     TableEntry {
                         a: e.a.clone(),
                         phi: f(&e.phi),
@@ -629,8 +633,8 @@ fn run_inst<T: Sc>(line: &Line, idx: usize, pools: &Pools, opts: &Opts, rep: &mu
                 .collect(),
         });
         let mrhs = inst.s >= 2;
-        let flav = format!("{} column-scaled twin (function {} x 2^{})", tag(idx, &fam, T::NAME, Kind::Table, mrhs, false, EpsVar::Default), jcol, sexp);
-        if let Ok(mut twin) = build_problem(TableModel::new(scaled, &a_first), mrhs, false, &inst.y, wref, None) {
+        let flav = format!("{} column-scaled twin ({} x 2^{})", tag(idx, &fam, T::NAME, Kind::Table, mrhs, false, EpsVar::Default), if all { "all functions".to_string() } else { format!("function {}", jcol) }, sexp);
+        if let Ok(mut twin) = build_problem(TableModel::new(scaled, &a_first), mrhs, false, &inst.y, wref, twin_eps) {
             for &qi in order.iter().take(npts) {
                 let pt = &inst.line.pts[qi];
                 if !(pt.rank == mfull && pt.lvl >= 2 && inst.healthy[qi]) {
@@ -643,7 +647,7 @@ fn run_inst<T: Sc>(line: &Line, idx: usize, pools: &Pools, opts: &Opts, rep: &mu
                     let mut wc = 0.0f64;
                     for j in 0..inst.m {
                         for s in 0..inst.s {
-                            let scale = if j == jcol { (2.0f64).powi(-sexp) } else { 1.0 };
+                            let scale = if all || j == jcol { (2.0f64).powi(-sexp) } else { 1.0 };
                             let e = pt.cn[j][s] as f64 / pt.d as f64 * scale;
                             // relative to the magnitude this coefficient row has
                             wc = wc.max((c[(j, s)].to64() - e).abs() / (scale * (pt.cn[j][s] as f64 / pt.d as f64).abs().max(1.0)));
